@@ -132,6 +132,8 @@ loop(F_CS, "CachedStore.flush", 1, modifies="world",
          ("entry-becomes-dirty-only-by-a-new-write", lambda L: forall(Str, lambda k: implies(
              Not(has(L.old(L.self)._dirty_keys, k)) & has(L.self._dirty_keys, k),
              L.self.g_writes.get(k, 0) > L.old(L.self).g_writes.get(k, 0)))),
+         # flush's own steps since entry / the last resume (trivial right after the loop-head havoc)
+         ("dirty-only-leaves-written-since-the-last-wait", lambda L: _written_back(L.since(L.self), L.self)),
      ])
 # ghost assertion at the place where flush marks a key clean
 ghost(F_CS, "CachedStore.flush", "self._dirty_keys.discard(key)", "_c16_clean_check(self, key)", where="before")
@@ -698,9 +700,15 @@ fn(CachedStore, "invalidate_all", uses=POLICY_IFACE + CS_HELPERS, focus=CS_FOCUS
 
 # flush: the write-back clause is the ghost assertion `flush/marked-clean-only-when-...` inside the loop body
 # (the body yields while the value travels to the backing store; a put() may rewrite the entry meanwhile)
+# Independently of that anchor (robust against a rewrite of the loop body): the two-state write-back clause over every
+# uninterrupted stretch of flush's own steps - entry to the loop, loop head to the yield, resume to the loop head / exit
+# (`since` = state at the latest of entry / resume / loop head): a key leaves the dirty set only with its cached value
+# in the backing store.
 fn(CachedStore, "flush", uses=POLICY_IFACE + CS_HELPERS + KV_API, focus=CS_FOCUS, requires=[UNBOUNDED_BACKING],
-   yields=Yields(at_yield=[("delay-nonnegative", lambda s, y: y >= 0)], **CS_YIELDS),
-   ensures=[("returns-a-count", lambda s: s.result >= 0)])
+   yields=Yields(at_yield=[("delay-nonnegative", lambda s, y: y >= 0),
+                           ("dirty-only-leaves-written", lambda s, y: _written_back(s.since(s.self), s.self))], **CS_YIELDS),
+   ensures=[("returns-a-count", lambda s: s.result >= 0),
+            ("dirty-only-leaves-written", lambda s: _written_back(s.since(s.self), s.self))])
 
 # ============================================================================ C. SoftTTLCache
 from happysimulator.components.datastore.soft_ttl_cache import SoftTTLCache, CacheEntry  # noqa: E402
@@ -849,6 +857,18 @@ fn(SoftTTLCache, "get", args={"key": Str}, uses=KV_API + ST_STORE, focus=ST_FOCU
                  stable=[("Entity", "_clock")],
                  rely=[lambda s, b, y: now_ns(s.self) >= b.pre(s.self._clock)._current_time.nanoseconds]),
    ensures=[
+    # from the statement, on the returned value itself (no ghost anchor): whatever path produced the result, if it is
+    # the value of the entry cached under the key at return time, that entry is younger than the hard TTL
+    ("never-serves-an-entry-past-its-hard-ttl", lambda s: True if s.result is None else (
+        # (A) the entry looked up at entry, valid at that instant (hits are served after the cache read latency)
+        (has(s.old(s.self)._cache, s.key) & mk_bool(e_val(s.old(s.self)._cache, s.key) == s.result.t)
+         & mk_bool(num(s.old(s.self._clock)._current_time.nanoseconds) - e_at(s.old(s.self)._cache, s.key)
+                   < num(ns(s.self._hard_ttl))))
+        # (B) the entry cached at return time, valid at that instant (looked up again after a wait)
+        | (has(s.self._cache, s.key) & mk_bool(e_val(s.self._cache, s.key) == s.result.t)
+           & mk_bool(num(now_ns(s.self)) - e_at(s.self._cache, s.key) < num(ns(s.self._hard_ttl))))
+        # (C) not served from the cache at all: the value the backing store holds now
+        | (has(s.self._backing_store._data, s.key) & mk_bool(mval(s.self._backing_store._data, s.key) == s.result.t)))),
     ("hit-or-current-backing-value", _st_get_result),
     ("fetched-value-is-cached-stamped-now", lambda s: True if s.result is None else implies(
         Not(has(s.pre(s.self)._cache, s.key)) & has(s.self._cache, s.key),
